@@ -652,6 +652,29 @@ def fam_nodes(chk, tier):
     chk.case(("corpus", "F24"), nontrivial=True)
     check_node(chk, n0, "lowered-once", lambda: {"program": "da.from_array(np.arange(10), chunks=5).rechunk((5, 5), balance=True, method='p2p').expr.lower_once({})"},
                nc, sid, seen_names)
+    # directed: rechunks whose plan has SEVERAL stages (fan-in above the degree limit / the graph-size threshold, small block-size
+    # limits): the estimate sums every stage
+    from dask_array._rechunk import plan_rechunk as _plan
+    multi = [("ones(1000, chunks=1).rechunk(1000)", lambda: da.ones(1000, chunks=1).rechunk(1000)),
+             ("ones((100,100), chunks=(1,100)).rechunk((100,1))", lambda: da.ones((100, 100), chunks=(1, 100)).rechunk((100, 1))),
+             ("ones((60,60), chunks=(2,60)).rechunk((60,3))", lambda: da.ones((60, 60), chunks=(2, 60)).rechunk((60, 3)))]
+    for k in range(400 if tier == "thorough" else 60):
+        shape = tuple(rng.choice([6, 8, 12, 16]) for _ in range(rng.choice([1, 2, 2, 3])))
+        old = tuple(progs.rand_chunks_for(rng, n) if rng.random() < 0.5 else (1,) * n for n in shape)
+        new = tuple(progs.rand_chunks_for(rng, n) if rng.random() < 0.7 else (n,) for n in shape)
+        thr, lim = rng.choice([1, 2, 3, 4, 8]), rng.choice([8, 32, 64, 256, 10 ** 6])
+        multi.append((f"ones({shape}, chunks={old}).rechunk({new}, threshold={thr}, block_size_limit={lim})",
+                      lambda shape=shape, old=old, new=new, thr=thr, lim=lim: da.ones(shape, chunks=old, dtype="int64").rechunk(new, threshold=thr, block_size_limit=lim)))
+    for label, mk in multi:
+        try:
+            node = mk().expr
+            steps = _plan(node.array.chunks, node.chunks, node.dtype.itemsize, node.threshold, node.block_size_limit)
+        except Exception as e:  # noqa: BLE001
+            chk.count("skipped:multi-stage:" + type(e).__name__)
+            continue
+        chk.count("rechunk:stages=" + str(min(len(steps), 4)))
+        chk.case(("multi-stage-rechunk", label), nontrivial=len(steps) > 1)
+        check_node(chk, node, "raw", lambda label=label: {"program": label}, nc, sid, seen_names)
     n_prog = 0
     for prog, sources, _want in streams:
         def describe(prog=prog, sources=sources):
